@@ -51,7 +51,7 @@ def gen_array(rng, np, signed=False):
     n = 1
     for s in shape:
         n *= s
-    kind = rng.choice(["mixed", "mixed", "zeros", "equal", "dups", "tiny", "big", "with_zero"])
+    kind = rng.choice(["mixed", "mixed", "zeros", "equal", "dups", "tiny", "big", "with_zero", "nano"])
     if kind == "zeros":
         vals = [0.0] * n
     elif kind == "equal":
@@ -61,6 +61,9 @@ def gen_array(rng, np, signed=False):
         vals = [rng.choice(pool) for _ in range(n)]
     elif kind == "tiny":
         vals = [rng.random() * 1e-6 for _ in range(n)]
+    elif kind == "nano":
+        sc_ = rng.choice([1e-9, 1e-12])       # a whole matrix on a very small scale (scaled data): scales are still not zero
+        vals = [abs(rng.gauss(0, 3)) * sc_ for _ in range(n)]
     elif kind == "big":
         vals = [rng.random() * 1e4 for _ in range(n)]
     else:
@@ -89,7 +92,7 @@ def run(ctx):
         kw = {}
         explicit_r = rng.random() < 0.4
         if explicit_r:
-            kw["r"] = rng.choice([0.5, 1.0, 2.0, 10.0, 1, 2])
+            kw["r"] = rng.choice([0.5, 1.0, 2.0, 10.0, 1, 2, 1e-9, 3e-12])
         if method == "reciprocal" and rng.random() < 0.4:
             kw["a"] = rng.choice([0.5, 1.0, 3.0, 1, 3])
         cq = False
@@ -174,6 +177,8 @@ def run(ctx):
             kw["base"] = rng.choice([2.0, 10.0])
         if method == "logistic" and rng.random() < 0.4:
             kw["x0"] = rng.choice([0.0, 1.0, 2.5])
+        elif method != "logistic" and rng.random() < 0.15:
+            kw["x0"] = rng.choice([0.5, 1.0, 2.5])       # documented as not supported there: must not break the laws
         av = [abs(v) for v in vals]
         cq = False
         if rng.random() < 0.25 and "r" not in kw and max(av) > 0:
